@@ -36,7 +36,7 @@ CHECKS = {
          "DESIGN.md §5 C16, §4 E8"),
  "C17": ("mc-sem", "exploration",
          "exhaustive enumeration of syntactic positions x packages (singles, ordered pairs, triples) with a generic AST-walk reference set and a differential resolve",
-         "A foreign package reference is placed at each of 21 syntactic positions (targets clause; import path; use paths in interface, world, inline interfaces of import statements / world imports / world exports; world import/export paths; include; new in let, named and string-named arguments, parentheses, under a postfix chain, in export, doubly nested, and in a named argument that follows a spread / named / inferred argument or precedes a spread and the fill) with and without version, singly and in all ordered pairs (thorough: all triples and the same package at two versions), plus own-package references (own directive with and without a version x reference without a version / with the own version / with another version) and self-instantiation at every position. packages(doc) must contain every (name, version) object found by a generic walk over the serialised AST, never the own package; self-instantiation must be rejected; resolving with exactly the discovered packages must give the same outcome and the same encoded bytes (both modes) as resolving with the whole library.",
+         "A foreign package reference is placed at each of 21 syntactic positions (targets clause; import path; use paths in interface, world, inline interfaces of import statements / world imports / world exports; world import/export paths; include; new in let, named and string-named arguments, parentheses, under a postfix chain, in export, doubly nested, and in a named argument that follows a spread / named / inferred argument or precedes a spread and the fill) with and without version, singly and in all ordered pairs (distinct packages, one package at two versions in both orders, the same reference twice; thorough: all triples), plus own-package references (own directive with and without a version x reference without a version / with the own version / with another version) and self-instantiation at every position. packages(doc) must contain every (name, version) object found by a generic walk over the serialised AST, never the own package; self-instantiation must be rejected; resolving with exactly the discovered packages must give the same outcome and the same encoded bytes (both modes) as resolving with the whole library.",
          "The reference set comes from the parser's own serialised AST (independent of the visitor, not of the parser). Supersets are represented by the whole library.",
          "DESIGN.md §5 C17"),
  "C08": ("mc-graph", "exploration",
